@@ -78,6 +78,8 @@ def check_operand_protocol(model, col, rule):
                 why.append(f"assigns `{r['assigned']}` instead of `{newp}`")
             col.check(good, rule, fk + " in ReplaceUses", f"if self.{f.name}.Reference == {refp}: self.{f.name} = {newp}",
                       f"ReplaceUses for operand {f.name}: " + "; ".join(why), IR, r["node"])
+            col.check(not r.get("chained"), rule, fk + " rewired independently", "the test for this operand does not depend on another operand not matching",
+                      f"the rewiring of operand {f.name} sits in the else-branch of another operand's test: when both operands are the same value (a swizzle read shuffles a value with itself) only the first is rewired", IR, r["node"])
             if f.optional:
                 asserted = any(isinstance(s, ast.Assert) and f"self.{f.name}" in unparse(s.test) for s in rf.body)
                 col.check(r["guarded"] or asserted, rule, fk + " None-guard in ReplaceUses", "optional operand is tested before `.Reference`",
@@ -242,6 +244,18 @@ def run(model, col, tier):
                   f"handlers {swaps} replace instructions by new objects, but the use lists are not refreshed afterwards: a later ReplaceUses rewires the replaced objects "
                   "and leaves the instructions that are actually in the function untouched (dangling operand once the producer is removed)", info["file"], v.node)
     col.floor("R02.8", "IR passes that swap instructions", nswap, 1)
+    # ---------------- R02.9 optimisation visitors keep no state ---------------------------
+    # one visitor object processes every function of a module; values and constants belong to one function
+    # (per-function reference numbering), so anything remembered across handler calls leaks between functions
+    for pname in pipe.ir_passes:
+        info = pipe.validator_info(pname)
+        v = info["visitor"]
+        if v is None or "IsOptimization" not in info.get("flags", ""):
+            continue
+        state = sorted(a for a in v.instance_attrs())
+        col.check(not state, "R02.9", f"{info['file']}::{v.name} is stateless", "the optimisation visitor stores nothing on itself",
+                  f"the visitor keeps {state} across handler calls: IR values (constants, instructions) remembered from one function are plugged into another, "
+                  "whose reference numbering they do not belong to", info["file"], v.node)
     # ---------------- R02.5 ------------------------------------------------------
     cv = model.cls(OCC, "OptimizeConstantCastVisitor").own_method("v_CastInstruction")
 
@@ -319,6 +333,13 @@ def run(model, col, tier):
 
     cv_env = {k: v for k, v in local_env(cv).items() if k != "constant"}
     col.check(bool(mk) and [rtext(a, cv_env) for a in mk[0].args] == ["ci.Type", "constant"], "R02.5", f"{OCC}::v_CastInstruction new constant", "the folded constant has the cast's target type", None, OCC, cv)
+    # the replacement is, on every path, the constant just created in the cast's own function
+    for c_ in [c for c in ast.walk(cv) if isinstance(c, ast.Call) and last_attr(c) == "Replace" and len(c.args) == 2]:
+        a1 = c_.args[1]
+        srcs = find_assign(cv, a1.id) if isinstance(a1, ast.Name) else [a1]
+        good_src = bool(srcs) and all(isinstance(s_, ast.Call) and last_attr(s_) == "CreateConstant" and "Parent.Parent" in unparse(s_.func) for s_ in srcs)
+        col.check(good_src, "R02.5", f"{OCC}::v_CastInstruction replacement provenance", "the replacement is the result of <cast's function>.CreateConstant(...)",
+                  f"the replacement `{unparse(a1)}` can come from {[unparse(s_)[:40] for s_ in srcs]}: a constant that was not created in the cast's own function has a reference of another function", OCC, c_)
     rpc = [c for c in ast.walk(cv) if isinstance(c, ast.Call) and last_attr(c) == "Replace"]
     col.check(bool(rpc) and unparse(rpc[0].args[0]) == "ci", "R02.5", f"{OCC}::v_CastInstruction replaces the cast", "the cast instruction is replaced by the constant", None, OCC, cv)
     guard = [n for n in ast.walk(cv) if isinstance(n, ast.If) and "isinstance" in unparse(n.test) and "ConstantValue" in unparse(n.test)]
